@@ -13,10 +13,11 @@ import (
 
 // event is one observation made by the tracing pager or the operation runner.
 // Encoded as a short JSON array: [kind, args...]
-//   ["L"] rlock ok      ["l", err] rlock failed     ["U"] runlock     ["u", err] runlock failed
-//   ["P", n] page n read ok    ["p", n, err] page read failed (incl. injected faults)
-//   ["R", bool] reserved-lock probe    ["X"] close
-//   ["C", i] callback number i entered (emitted by the op runner)
+//
+//	["L"] rlock ok      ["l", err] rlock failed     ["U"] runlock     ["u", err] runlock failed
+//	["P", n] page n read ok    ["p", n, err] page read failed (incl. injected faults)
+//	["R", bool] reserved-lock probe    ["X"] close
+//	["C", i] callback number i entered (emitted by the op runner)
 type event []interface{}
 
 // tracePager wraps a VerifPager, records events and can inject faults.
